@@ -210,7 +210,7 @@ def writer_layouts(ctx):
     if k not in _cache:
         eng = mk_engine(F)
         b = F.body(ARG_AS_BYTES)
-        outs = eng.call_path(ARG_AS_BYTES, eng.symbolic_args(b)) if b else None
+        outs = eng.call_path(ARG_AS_BYTES, eng.symbolic_args(b, names=["self"])) if b else None
         _cache[k] = (eng, outs)
     return _cache[k]
 
@@ -221,7 +221,7 @@ def len_rows(ctx):
     if k not in _cache:
         eng = mk_engine(F)
         b = F.body(ARG_LEN)
-        outs = eng.call_path(ARG_LEN, eng.symbolic_args(b)) if b else None
+        outs = eng.call_path(ARG_LEN, eng.symbolic_args(b, names=["self"])) if b else None
         _cache[k] = (eng, outs)
     return _cache[k]
 
@@ -404,7 +404,7 @@ def check_headers(ctx, rule="WIRE-H"):
             return
     # --- storage header: 'DLT\x01', seconds LE, microseconds LE, ECU id (4, NUL padded)
     eng = plain_engine(F)
-    outs = eng.call_path(STORAGE_AS_BYTES, eng.symbolic_args(F.body(STORAGE_AS_BYTES)))
+    outs = eng.call_path(STORAGE_AS_BYTES, eng.symbolic_args(F.body(STORAGE_AS_BYTES), names=["self"]))
     for st, rv in outs:
         got = merge_consts(tokens(rv) or [("?",)]) if isinstance(rv, Cont) else [("?",)]
         want = [("CONSTB", b"DLT\x01"), ("NUM", 4, "LE", "*self.timestamp.seconds"), ("NUM", 4, "LE", "*self.timestamp.microseconds")] + idfield("*self.ecu_id")
@@ -413,7 +413,7 @@ def check_headers(ctx, rule="WIRE-H"):
     names = {"dlt::StandardHeader::header_type_byte": ("HTYP(self)", 8), "dlt::StandardHeader::overall_length": ("LEN(self)", 16)}
     eng = plain_engine(F, names)
     eng.key_adts = set()
-    outs = eng.call_path(STD_AS_BYTES, eng.symbolic_args(F.body(STD_AS_BYTES)))
+    outs = eng.call_path(STD_AS_BYTES, eng.symbolic_args(F.body(STD_AS_BYTES), names=["self"]))
     seen = set()
     for st, rv in outs:
         kd = key_dict(st)
@@ -435,7 +435,7 @@ def check_headers(ctx, rule="WIRE-H"):
         R.violation(rule, STD_AS_BYTES + "|partitions", "expected 8 presence patterns of the optional standard-header fields, saw %d" % len(seen), function=STD_AS_BYTES, kind="UNRECOGNISED-SHAPE")
     # --- extended header: MSIN, NOAR, APID, CTID
     eng = plain_engine(F)
-    outs = eng.call_path(EXT_AS_BYTES, eng.symbolic_args(F.body(EXT_AS_BYTES)))
+    outs = eng.call_path(EXT_AS_BYTES, eng.symbolic_args(F.body(EXT_AS_BYTES), names=["self"]))
     for st, rv in outs:
         got = tokens(rv) if isinstance(rv, Cont) and rv.segs is not None else [("?",)]
         msin = got[0] if got else ("?",)
@@ -537,7 +537,7 @@ def check_payload(ctx, rule="WIRE-P"):
         return _old(eng_, st, fr, f, args, site) if _old else None
 
     eng.on_call = on_call
-    outs = eng.call_path(PAYLOAD_AS_BYTES, eng.symbolic_args(b))
+    outs = eng.call_path(PAYLOAD_AS_BYTES, eng.symbolic_args(b, names=["self"]))
     seen = set()
     for st, rv in outs:
         kd = key_dict(st)
@@ -607,7 +607,7 @@ def check_message(ctx, rule="WIRE-M"):
 
     from engine.values import Ref
     eng.on_call = on_call
-    outs = eng.call_path(MSG_AS_BYTES, eng.symbolic_args(b))
+    outs = eng.call_path(MSG_AS_BYTES, eng.symbolic_args(b, names=["self"]))
     seen = set()
     for st, rv in outs:
         kd = key_dict(st)
